@@ -198,6 +198,15 @@ def run(chk, replay=None):
             m, em, user, funcs = bgrun.emit_cpp.random_cpp(seed, fnptr=(i % 6 == 0), wrapped=(i % 3 == 1), wrapped_ctx=("" if i % 6 == 1 else "Arc"), layout=(i % 4 >= 2), plain=(i % 8 == 3))
             one_model_cpp(chk, binary, "c%d" % seed, em, user, funcs, CONFIGS[i % len(CONFIGS)], stats)
         jobs.append(job)
+    # every configuration on headers that declare only one kind of context (a default naming a type the header lacks must not leak into it)
+    for i in range(2 if q else 10):
+        seed = chk.seed * 100000 + 58000 + i
+        for fc in ("", "Arc"):
+            for ci, cfg in enumerate(CONFIGS):
+                def job(seed=seed, fc=fc, ci=ci, cfg=cfg):
+                    m, em, user, funcs = bgrun.emit_cpp.random_cpp(seed, force_ctx=fc)
+                    one_model_cpp(chk, binary, "s%d%s_%d" % (seed, fc or "No", ci), em, user, funcs, cfg, stats)
+                jobs.append(job)
     rtrun.run_many(chk, jobs)
     stats["argv_cases"] = argv_checks(chk, binary)
     chk.part("headers", **stats)
